@@ -438,3 +438,106 @@ def boundary_contexts():
                     out.append(Ctx(ct, binary, tmpl, [], [d, d], NOW_FIXED))
                     out.append(Ctx(ct, binary, tmpl, [d, '2013-05-28 12:00+0000', d], [], NOW_FIXED))
     return out
+
+# ------------------------------------------------------------------ whole files through Checker.check()
+
+DATE_TAGS = {'boilerplate-in-date', 'invalid-date', 'date-from-future', 'ancient-date', 'no-date-header-field', 'duplicate-header-field-date'}
+FILE_CONTENT_TYPES = [None, 'text/plain; charset=UTF-8', 'text/plain; charset=UTF-8', 'application/x-publican; charset=UTF-8',
+                      'application/x-publican;', 'application/x-publican', 'application/x-publican ; v=1']
+
+def file_safe(d):
+    """a date value that survives PO escaping, the header split and `value.strip(' \\t')` unchanged"""
+    return all(ord(ch) >= 0x20 and ch != '\x7f' and not (0xd800 <= ord(ch) <= 0xdfff) for ch in d) and d == d.strip(' \t') \
+        and '\x85' not in d and ' ' not in d and ' ' not in d
+
+def file_cases(rng, n, dates_pool):
+    """(Ctx, kind) with kind in po/pot/mo; `now` around the instants as in `contexts`"""
+    pool = [d for d in dates_pool if file_safe(d)]
+    base = contexts(rng, n, pool)
+    out = []
+    for c in base:
+        kind = rng.choice(['po', 'po', 'pot', 'mo'])
+        c.content_type = rng.choice(FILE_CONTENT_TYPES)
+        c.is_binary, c.is_template = kind == 'mo', kind == 'pot'
+        utf8 = c.content_type is not None and 'charset=UTF-8' in c.content_type
+        keep = lambda d: file_safe(d) and (utf8 or d.isascii())     # without a declared charset the file is not read as UTF-8
+        c.pot = [d for d in c.pot if keep(d)]
+        c.po = [d for d in c.po if keep(d)]
+        out.append((c, kind))
+    return out
+
+def header_text(rng, c):
+    fields = [('Project-Id-Version', 'verif 1'), ('Report-Msgid-Bugs-To', 'bugs@example.org')]
+    dates = [('POT-Creation-Date', d) for d in c.pot] + [('PO-Revision-Date', d) for d in c.po]
+    if rng.random() < 0.5:
+        # interleave the two fields, keeping each field's own order
+        pot = [x for x in dates if x[0] == POT]
+        po = [x for x in dates if x[0] == PO]
+        dates = []
+        while pot or po:
+            src = pot if (pot and (not po or rng.random() < 0.5)) else po
+            dates.append(src.pop(0))
+    fields += dates
+    fields += [('Last-Translator', 'A B <ab@example.org>'), ('Language-Team', 'Polish <pl@example.org>'), ('Language', 'pl'), ('MIME-Version', '1.0')]
+    if c.content_type is not None:
+        fields.append(('Content-Type', c.content_type))
+    fields.append(('Content-Transfer-Encoding', '8bit'))
+    pad = lambda: rng.choice(['', '', ' ', '\t', '  '])
+    return ''.join(f'{k}:{rng.choice([" ", " ", "", "  ", chr(9)])}{v}{pad()}\n' for k, v in fields)
+
+def write_catalog(rng, c, kind, directory, idx):
+    from gen import catalog as CAT, mo as MO
+    hdr = header_text(rng, c)
+    path = os.path.join(directory, f'c{idx}.{kind}')
+    if kind == 'mo':
+        cat = [(None, b'', None, [hdr.encode('utf-8')]), (None, b'hello', None, ['witaj'.encode('utf-8')])]
+        data = MO.serialize(cat, MO.gen_layout(rng, simple=True))
+        with open(path, 'wb') as f:
+            f.write(data)
+    else:
+        text = 'msgid ""\nmsgstr ""\n' + ''.join('"%s"\n' % CAT.po_escape(line + '\n') for line in hdr.split('\n')[:-1])
+        text += '\nmsgid "hello"\nmsgstr "%s"\n' % ('' if kind == 'pot' else 'witaj')
+        with open(path, 'w', encoding='utf-8', newline='') as f:
+            f.write(text)
+    return path
+
+def real_file_check(c, path):
+    """the date tags `Checker(path).check()` emits (all checks run), with utc_now patched"""
+    import checker_harness as H
+    misc = M()[1]
+    from lib import tags
+    now = G.from_us(c.now_us)
+    saved = getattr(misc, 'utc_now', None)
+    misc.utc_now = lambda: now
+    try:
+        checker, calls = H.make_checker(path)
+        checker.check()
+    except Exception as exc:
+        return ('err', type(exc).__name__, str(exc)[:200])
+    finally:
+        misc.utc_now = saved
+    out = []
+    others = set()
+    for name, extra in calls:
+        if name in DATE_TAGS:
+            out.append((name, [('S' if isinstance(x, tags.safestr) else 's' if isinstance(x, str) else 'o', str(x)) for x in extra]))
+        else:
+            others.add(name)
+    return ('ok', out, sorted(others))
+
+def impl_file(c, path):
+    r = real_file_check(c, path)
+    return 'ok ' + show_tags(r[1]) if r[0] == 'ok' else 'err ' + r[1]
+
+def check_file_property(c, kind, path):
+    r = real_file_check(c, path)
+    ref = ref_tags(c)
+    base = {'context': c.as_dict(), 'file_kind': kind, 'file': open(path, 'rb').read().decode('utf-8', 'backslashreplace'),
+            'real': list(r[:2]), 'reference': list(ref),
+            'how': 'write `file` as x.<file_kind> (the .mo is the MO serialisation of that header), Checker(path).check() with lib.misc.utc_now patched to now; date tags only'}
+    if r[0] == 'err':
+        return dict(base, kind=f'Checker.check raised {r[1]} on a catalogue with these date fields', key=f'C18:file-crash:{r[1]}')
+    if ref[0] == 'ok' and r[1] != ref[1]:
+        return dict(base, kind='date tags of the file differ from the reference verdict', key='C18:file-tags-differ',
+                    real_tags=show_tags(r[1]), reference_tags=show_tags(ref[1]))
+    return None
